@@ -261,6 +261,11 @@ BatchChecks(S, m, e) ==
 \* after a cleanup with every timeout elapsed nothing is left (C17)
 CleanupChecks(S, m, e) ==
   IF ~Has(e, "st") THEN <<>> ELSE
+  \* an FDT instance that was received completely but is expired, or that failed, is of no further use: a cleanup releases it
+  \* (state of the snapshot: 0 receiving, 1 complete, 2 error, 3 expired)
+  << <<"C17", "expired-or-failed-fdt-instances-kept-by-cleanup",
+        \A i \in 1..Len(e.st.sess) : \A j \in 1..Len(e.st.sess[i].fr) : e.st.sess[i].fr[j][2] \in {0, 1}, e.st.sess>> >>
+  \o
   \* (a) every object / unfinished FDT instance for which no packet was pushed during more than the object time-out
   \*     (monotonic clock read after the push returned and before cleanup was called, 2 ms of margin) is released
   (IF m.rcfg.obj_to < 0 \/ ~Has(e, "ms") \/ m.mutated THEN <<>> ELSE
